@@ -651,6 +651,17 @@ func (s *mgSim) ctlGet(c client.Reader, cached bool, key client.ObjectKey, obj c
 			}
 		}
 		v := h[i].obj
+		if kind == "resv" && s.cur != nil && v != nil {
+			// history class of a recorded defect: earlier in this reconcile the controller was served (through the API reader, the
+			// cache having answered NotFound) a version of the reservation that is already consumed (Succeeded), and the lagging
+			// cache now serves it an older version that is not: the checks of one eviction decision are spread over both reads
+			if seen, ok := s.view[k]; ok && seen.idx > i {
+				newer, _ := seen.obj.(*sev1alpha1.Reservation)
+				if newer != nil && newer.Status.Phase == sev1alpha1.ReservationSucceeded && v.(*sev1alpha1.Reservation).Status.Phase != sev1alpha1.ReservationSucceeded {
+					s.r.Tag("cache-serves-unconsumed-reservation-after-api-reader-served-it-consumed")
+				}
+			}
+		}
 		s.serve(k, v, i)
 		if v == nil {
 			s.r.Probe("stale-read-notfound:" + kind)
